@@ -107,9 +107,28 @@ def lean_sources():
     return sorted(res)
 
 
-def grep_audit():
+def import_closure(modules):
+    """Lean source files of the given modules and of everything they import inside this project."""
+    seen, todo = {}, list(modules)
+    while todo:
+        m = todo.pop()
+        if m in seen:
+            continue
+        path = os.path.join(LEAN, m.replace(".", "/") + ".lean")
+        if not os.path.exists(path):
+            continue
+        seen[m] = path
+        for line in strip_comments(open(path, encoding="utf-8").read()).split("\n"):
+            mm = re.match(r"\s*(?:public\s+)?import\s+(Tahoe\.\S+|Drv\.\S+)", line)
+            if mm:
+                todo.append(mm.group(1))
+    return sorted(seen.values())
+
+
+def grep_audit(paths=None):
+    """Forbidden tokens in the given Lean files (default: every file of the project)."""
     hits = []
-    for path in lean_sources():
+    for path in (paths if paths is not None else lean_sources()):
         body = strip_comments(open(path, encoding="utf-8").read())
         # string literals may legitimately contain words; drop them
         body = re.sub(r'"(\\.|[^"\\])*"', '""', body)
